@@ -42,8 +42,8 @@ def sc_score(B, kind, C, D, rU, rV, S, twice=False, history=None, layout="C"):
     if layout == "F":
         # the UBM's arrays as (transposed) views: same values, another memory layout
         ubm = M["ubm"]
-        ubm.means = B.np.array(B.np.transpose(ubm.means)).T
-        ubm.variances = B.np.array(B.np.transpose(ubm.variances)).T
+        ubm.means = B.np.array([[ubm.means[c, d] for c in range(C)] for d in range(D)]).T
+        ubm.variances = B.np.array([[ubm.variances[c, d] for c in range(C)] for d in range(D)]).T
     X, sess = [], []
     for h in range(S):
         s, O = fa.make_stats(B, C, D, "p%d" % h)
